@@ -63,6 +63,14 @@ def items():
             pass
     texts["v3:star"] = MF.v3000_text(mols["cube"], MF.with_(MF.default_spelling(), star=[(0, [0, 3], False, 8, 9, "ALL")]))
     texts["v3:split"] = MF.v3000_text(mols["single"], MF.with_(MF.default_spelling(), splits=[(3, 9), (3, 17)]))
+    dplus = Mol([Atom("N", 1), Atom("H", 1, 0, 2), Atom("Cl", -1), Atom("O", -1)], [(0, 3, 1)])
+    texts["v2codes:D+"] = MF.v2000_text(dplus, MF.with_(MF.default_v2_spelling(), chg_via="codes", rad_via="codes", dt=[1]))
+    texts["v2codes:NH4+"] = MF.v2000_text(Mol([Atom("N", 1), Atom("Cl", -1), Atom("Na", 1)], []),
+                                          MF.with_(MF.default_v2_spelling(), chg_via="codes", rad_via="codes"))
+    texts["bad:v2codes:D+ no end"] = texts["v2codes:D+"].replace("M  END", "M  EN")
+    # two isomers with the same numbers of atoms and bonds (caches keyed on object identity or on counts)
+    texts["v3:isoA"] = MF.v3000_text(Mol([Atom("C"), Atom("C"), Atom("O"), Atom("N")], [(0, 1, 1), (1, 2, 1), (2, 3, 1)]))
+    texts["v3:isoB"] = MF.v3000_text(Mol([Atom("C"), Atom("C"), Atom("O"), Atom("N")], [(0, 1, 1), (0, 2, 1), (0, 3, 1)]))
     texts["bad:version"] = texts["v3:single"].replace("V3000", "V4000")
     texts["bad:counts"] = texts["v3:single"].replace("COUNTS 1 0", "COUNT 1 0")
     texts["bad:noend"] = texts["v2:ethanol-d"].replace("M  END", "M  EN")
@@ -140,7 +148,7 @@ def items():
             if name.startswith("bad:") and opname != "read":
                 continue
             out.append((f"{opname}|{name}", (lambda op=op, t=t: op(t))))
-    for name in ("v3:salt", "v3:ethanol-d", "v3:isolated", "v3:cube"):
+    for name in ("v3:salt", "v3:ethanol-d", "v3:isolated", "v3:cube", "v3:isoA", "v3:isoB"):
         out.append((f"write-calc|{name}", (lambda t=texts[name]: op_write_calc(t))))
     # operations on a graph object the caller keeps across calls (read once per process/history)
     mols["isohexane"] = Mol([Atom("C") for _ in range(6)], [(0, 1, 1), (1, 2, 1), (2, 3, 1), (3, 4, 1), (1, 5, 1)])
